@@ -72,6 +72,13 @@ Example C14_compose_nonvacuous_adjusted :
                    AdjAllow (Leaf 6 LDist) (TieBr (Leaf 7 LDist) (Leaf 8 LSelD));
                    VSys (AdjLevel (Cond (Leaf 9 LThr) (Leaf 10 LDist) 0) (Leaf 11 LDist) 100);
                    AdjLeaf 12 (Leaf 13 LDist) ] 0 in
+  (* the shape of the German system: constituency seats, then ByParty with the seat count levelled by constituency *)
+  let t2 := Fixed (Multi [ ByCons (Leaf 1 LSelD) (AInt 1);
+                           PreConv 2 (AdjLevelC (ByConsD (Leaf 3 LDist) (Leaf 4 LDist)) (Leaf 5 LDist)
+                                                (ByParty (Leaf 6 LDist) (Leaf 7 LDist)) 100);
+                           AdjLevelC0 (ByConsP (Leaf 8 LDist) (ADict [(KC 101, VInt 2)]) (Leaf 9 LThr)) (ByPartyS (Leaf 10 LDist)) 100 ] 1)
+                  (VInt 598) in
+  wt t2 = true /\ faithful t2 = true /\ seated t2 = true /\ fits t2 kw_none = true /\
   wt t = true /\ faithful t = true /\ seated t = true /\
   fits t (KW (Some (VInt 120)) None None None None None) = true.
 Proof. vm_compute. repeat split. Qed.
